@@ -1,10 +1,10 @@
 CONSTANTS
-  Ctxs = {1, 2}
+  Ctxs = {1, 2, 3}
   Names = {"x", "y"}
   Boxes = {1, 2}
   Vals = {0, 1}
   MaxStack = 2
-  MaxOps <- NoLimit
+  MaxOps = 7
   OpKinds = {"set", "get", "del", "iter", "release", "push", "pop", "top", "release_stack", "cleanup", "mkproxy", "proxy_read", "proxy_mutate", "spawn"}
   Made0 <- NoneMade
   Bug = "none"
